@@ -30,6 +30,11 @@ CHECKS = {
    text="Generated-input search over rejected inputs: ~7.1k small grammars (incl. repetitions and 19 templates aimed at each failure-bookkeeping site) x every string over {a,b,c} up to length 4 (quick) / 6 (thorough), plus 300k / 4M random (grammar, input) pairs (strict and general class, no `not`); the last Rich error must start exactly at the furthest failure event, carry the union of the expectations at that position or the user-supplied error there, have a well-formed span and a truthful `found`; Cheap and Simple must report the same span (Simple the same found), EmptyErr exactly one error. Exploration within these bounds.",
    note="Trusted: the reference's event positions (primitive mismatch at the offending token, semantic rejection at the start of the rejected match). Content comparison is skipped (counted) where a failure event lies inside a rejected filter/try_map. F4 and F5/F10 were found by this check and fixed in /repo (d8e9691, 72acc61).",
    design="DESIGN.md section 4, C06"),
+ "C04": dict(
+   technique="property-based differential testing: parse vs check on the same (grammar, input); metamorphic paired formulations (value-eliding combinators rebuilt in their value-building form); metamorphic inner elision (wrapping a node in to_slice()/ignored()); generated grammars of every class, exhaustive templates x short strings + proptest-driven random tier",
+   text="Generated-input search: 220 templates (each value-eliding combinator around each Emit-forcing parser incl. Ext parsers with a separately written check path) x every string over {a,b,c} up to length 5 (quick) / 7 (thorough), plus 300k / 4M random (grammar, input) pairs over every node family the harness can build (structural / +emitters+recovery / everything incl. labels, map_err, memoized, recursion, state, context), &str and &[char]; check() must report the same has_output and the identical error list as parse() (Rich; Simple and Cheap on a quarter of the cases), the value-building rewrite of the grammar must give the identical output, errors and user state, and running an un-inspected node in Check mode must not change acceptance or errors. Exploration within these bounds.",
+   note="No reference semantics is involved (pure differential). Panics occurring identically in both modes are counted and left to C20. Pratt and nested-input grammars are compared parse-vs-check inside C09 / C16.",
+   design="DESIGN.md section 4, C04"),
 }
 
 NOT_YET = {}
